@@ -633,7 +633,7 @@ theorem C01_roundtrip_inner_nodes (env : Env) (t : Tree) (q : Path) (name : Nat)
   have hfrag : RepresentableFragment env (.node .document [.node (.element name) (nsLeaves X ++ ks)]) = true := by
     simp only [Representable, Bool.and_eq_true] at hr; exact hr.1
   obtain ⟨_, _, hn, _⟩ := (representableFragment_iff env _).mp hfrag
-  exact deepEqual_prepend_ns name ks X (allNodes_kid hn (by simp)) (Repair.allNodes_at? q t _ hok hat)
+  exact deepEqual_prepend_ns name ks X (allNodes_kid hn (by simp)) (ist_allNodes_at? q t _ hok hat)
 
 /-- **Theorem B** (`C01_roundtrip_inner`): for an element anywhere inside a representable document or
     fragment: if `to_string(element)` succeeds, parsing the text gives the standalone document, and the
